@@ -127,13 +127,13 @@ class Lines:
             for line in self._lines:
                 line.rstrip()
                 line.truncate(width, overflow=overflow)
-                line.pad_left((width - cell_len(line.plain)) // 2)
+                line.pad_left(max(0, (width - cell_len(line.plain)) // 2))
                 line.pad_right(width - cell_len(line.plain))
         elif justify == "right":
             for line in self._lines:
                 line.rstrip()
                 line.truncate(width, overflow=overflow)
-                line.pad_left(width - cell_len(line.plain))
+                line.pad_left(max(0, width - cell_len(line.plain)))
         elif justify == "full":
             for line_index, line in enumerate(self._lines):
                 if line_index == len(self._lines) - 1:
